@@ -12,7 +12,7 @@ import (
 func init() { Registry["C08"] = checkC08 }
 
 func checkC08(p *core.Prog, r *core.Report) {
-	r.Explanation = "Decides structural necessary conditions of clean-prefix recovery: (R1) the log readers (AofFile.ReadLock, ReadHeader, ReadLockData, ReadTail) never report success after a detected failure: no return of an error value that the path facts prove nil while another error was found non-nil, and ReadLock's success returns carry the full-record equality n == recordLen+2; (R2) ReadHeader succeeds only after n == 12, the magic and the version tests; opening for append truncates a file shorter than its 12-byte header before writing a new header; (R3) in LoadAofFile a failed value read returns the error without invoking the record callback for that record; the record's value blob is read before any skip of the record (so the sequential value file stays aligned); (R4) AofFile.Flush writes the record file before the value file on every path; (R5) value bytes are buffered (dwindex grows) only on paths where records are buffered too (windex > 0), because Close and the rotation path flush only when records are buffered. (R6) the readers never hand out the error of io.ReadFull / io.ReadAtLeast unmapped (a partly present item must read as io.EOF, the only value the loaders treat as end of log); (R7) an oversized value is written directly to the value file only with the record buffer empty. (R8) the sequential readers return a constructed (non-EOF) error only about an item they have read completely - a partly present header or record must read as io.EOF; (R9) opening the newest append file for append cuts it back to a whole number of records before anything is appended. NOT decided: behaviour at each of the 64 residues, alignment of the value file after a torn tail, a crash between the two writes, fsync timing - these need crash images."
+	r.Explanation = "Decides structural necessary conditions of clean-prefix recovery: (R1) the log readers (AofFile.ReadLock, ReadHeader, ReadLockData, ReadTail) never report success after a detected failure: no return of an error value that the path facts prove nil while another error was found non-nil, and ReadLock's success returns carry the full-record equality n == recordLen+2; (R2) ReadHeader succeeds only after n == 12, the magic and the version tests; opening for append truncates a file shorter than its 12-byte header before writing a new header; (R3) in LoadAofFile a failed value read returns the error without invoking the record callback for that record; the record's value blob is read before any skip of the record (so the sequential value file stays aligned); (R4) AofFile.Flush writes the record file before the value file on every path; (R5) value bytes are buffered (dwindex grows) only on paths where records are buffered too (windex > 0), because Close and the rotation path flush only when records are buffered. (R6) the readers never hand out the error of io.ReadFull / io.ReadAtLeast unmapped (a partly present item must read as io.EOF, the only value the loaders treat as end of log); (R7) an oversized value is written directly to the value file only with the record buffer empty. (R8) the sequential readers return a constructed (non-EOF) error only about an item they have read completely - a partly present header or record must read as io.EOF; (R9) opening the newest append file for append cuts it back to a whole number of records before anything is appended. (R10) some function of the log truncates the value file - none does: known finding. NOT decided: behaviour at each of the 64 residues, where exactly the two files are cut after a crash between the two writes, fsync timing - these need crash images."
 	r.Assumptions = []string{"Go type checker and go/ssa are correct for /repo", "bufio.Reader.Read returns (n>0, nil) or (0, err)"}
 	c08R1(p, r)
 	c08R2(p, r)
@@ -23,6 +23,7 @@ func checkC08(p *core.Prog, r *core.Report) {
 	c08R7(p, r)
 	c08R8(p, r)
 	c08R9(p, r)
+	c08R10(p, r)
 }
 
 func c08R1(p *core.Prog, r *core.Report) {
@@ -602,5 +603,50 @@ func c08R9(p *core.Prog, r *core.Report) {
 	}
 	if n == 0 {
 		r.Fail("C08/R9: the append arm of AofFile.Open that keeps an existing file was not found")
+	}
+}
+
+// c08R10: a crash between the two writes of a flush leaves the last record
+// complete and its value cut short. The loader stops there, but the record
+// file is then appended to behind that record and the value file behind the
+// torn bytes: every later restart stops at the same record (or reads values
+// off their grid) and never reaches what was persisted afterwards. Whatever
+// the repair looks like, it has to cut the value file back - and today nothing
+// in the server ever truncates it.
+func c08R10(p *core.Prog, r *core.Report) {
+	const rule = "C08/R10"
+	r.Rule(rule, "some function of the log truncates the value file (AofFile.dataFile): a value cut short by a crash must be removed before values are appended behind it", 1)
+	where := ""
+	for _, fn := range p.FuncsIn("server") {
+		for _, b := range fn.Blocks {
+			for _, ins := range b.Instrs {
+				ci, ok := ins.(ssa.CallInstruction)
+				if !ok {
+					continue
+				}
+				callee := ci.Common().StaticCallee()
+				if callee == nil || callee.Name() != "Truncate" || len(ci.Common().Args) == 0 {
+					continue
+				}
+				if u, ok := ci.Common().Args[0].(*ssa.UnOp); ok {
+					if fa, ok := u.X.(*ssa.FieldAddr); ok {
+						if k := core.FieldKeyOf(fa.X.Type(), fa.Field); k.Type == "server.AofFile" && k.Field == "dataFile" {
+							where = p.InstrPos(ins)
+						}
+					}
+				}
+			}
+		}
+	}
+	key := "server.AofFile.dataFile: a torn value is cut off before values are appended"
+	open := mustFunc(p, r, "server.(*AofFile).Open")
+	pos := "-"
+	if open != nil {
+		pos = p.Pos(open.Pos())
+	}
+	if where != "" {
+		r.Hold(rule, key, where, "the value file is truncated here")
+	} else {
+		r.Violate(rule, key, pos, "nothing in the server ever truncates the value file: after a crash that left the last record's value cut short, the restart appends new records behind that record and new values behind the torn bytes, and every later restart stops at the record with the torn value - what was persisted after the first restart is never recovered", nil)
 	}
 }
